@@ -45,6 +45,14 @@ def shrink_compile(f):
         keep = ".".join(x for x in flags.split(".") if x in ("s", "z", "j"))
         if keep != flags:
             yield emit(pipes, decls[:i] + [head + "~" + keep] + decls[i + 1:])
+    # one flag at a time (a further register annotation, a second group attribute, a storage keyword, ...)
+    for i, d in enumerate(decls):
+        head, flags = d.split("~")
+        fl = [x for x in flags.split(".") if x]
+        for k in range(len(fl)):
+            if fl[k] in ("s", "z", "j"):
+                continue
+            yield emit(pipes, decls[:i] + [head + "~" + ".".join(fl[:k] + fl[k + 1:])] + decls[i + 1:])
 
 
 def shrink(req):
@@ -67,7 +75,10 @@ SPEC = {
         "inline_offsets_tile", "binding_complete", "inline_buffers_correct", "assign_never_panics",
         "register_class_iff_resource", "non_resource_global_is_inert",
         "compile_shape_as_modelled", "per_pipeline_default_group", "fresh_module_unbound", "per_pipeline_tiling",
-        "by_name_agrees_with_whole_file", "metadata_is_the_allocation"]],
+        "by_name_agrees_with_whole_file", "metadata_is_the_allocation",
+        "attribute_fold_later_wins", "accepted_annotations_agree", "declarator_groups_independent",
+        "declarator_group_depends_only_on_itself", "front_lists_each_declarator", "agrees_get",
+        "declarator_lands_in_its_own_group"]],
     "harness": "c06",
     "level_text": "Proof: the allocator model (a fold with two counters) is proved, for every declaration sequence, default group "
                   "and parameter set compile() can build, to hand out per-group index ranges that tile [0,total) in declaration "
@@ -79,11 +90,23 @@ SPEC = {
                   "both exporters) is proved, for every list of pipelines, mode and target, to return for the k-th requested "
                   "pipeline exactly the allocator run with that pipeline's own default group (0 in no-pipeline mode), "
                   "independent of the other pipelines, and metadata that lists per group exactly that allocation (the Metal "
-                  "per-group sort is the identity because the ranges tile). Tables and 48 statement-level source facts are "
+                  "per-group sort is the identity because the ranges tile). The front half (Model/SlotsFront: the attribute loop of a "
+                  "declaration, the storage-class loop, the loop over the declarators of a global-variable declaration with its "
+                  "per-declarator annotation loop, attribute overrides and static-sampler checks, the cbuffer path) is proved, for "
+                  "every declaration, registry and declarator list, to append exactly one global per declarator in declarator "
+                  "order, the j-th being what that declarator alone gives, its explicit group = the declaration's last group "
+                  "attribute, else the space of ITS OWN register annotation, else none (declarator_groups_independent); "
+                  "accepted repeated annotations all ask for the same binding; composed with the driver and allocator theorems: in "
+                  "every returned pipeline every declarator of every accepted declaration is bound (iff bindable) in that group or "
+                  "else the pipeline's default group, whatever its neighbours say (declarator_lands_in_its_own_group). "
+                  "Tables and 56 statement-level source facts are "
                   "re-extracted from the source each run; the allocator model is compared with the real assign_api_bindings on "
                   "generated declaration sequences and the driver model with the real rssl::compile on generated shader files "
                   "(4 target configurations x whole file / every pipeline by name / unknown name / no-pipeline mode), with the "
-                  "property's own overlap/gap/order/default-group oracle run on the real slots and on the returned metadata.",
+                  "property's own overlap/gap/order/default-group oracle run on the real slots and on the returned metadata, "
+                  "evaluated per declarator (explicit groups of a declarator = the ones written in its declaration's attributes "
+                  "and in its own register annotations; a program whose every binding annotation is well formed must not be "
+                  "rejected for its annotations).",
     "nontrivial": nontrivial,
     "shrink": shrink,
     "rule": "C06.assign requests = (parameter set, default group, declaration sequence) run through the real front end and "
@@ -93,27 +116,43 @@ SPEC = {
             "the 4 parameter sets x default group 0..2. C06.compile requests = (target configuration, mode, pipelines with "
             "their default groups 0..5 / absent, kinds and shared entry points, 0-9 named declarations in source order with "
             "the spelling of their group: attribute / register space / vk::binding / attribute overriding a register space, "
-            "explicit register indices, bindless, namespaces, several declarators per declaration, static storage, unsized "
-            "and two-dimensional arrays) rendered to a shader file and compiled by rssl::compile; quick 300 programs "
+            "explicit register indices, bindless, namespaces, static / groupshared / extern storage keywords, unsized "
+            "and two-dimensional arrays; several declarators per declaration, each with ITS OWN register space / register "
+            "index / repeated (agreeing or conflicting) annotations / array shape / static-sampler initialiser while the "
+            "attributes -- one or two group attributes, vk::binding, bindless -- belong to the declaration; now and then an "
+            "ill-formed annotation: wrong register class, semantic, register on a non-object, binding index on a static "
+            "sampler, static sampler with static storage, bindless cbuffer, `static extern`, 12 kinds of ill-formed "
+            "attribute) rendered to a shader file and compiled by rssl::compile; first the declarator matrix (8 ways the "
+            "first declarator / the declaration spells a group x 4 ways a later declarator does, groups equal to / "
+            "different from the pipelines' default groups; quick 32 programs, thorough 384), then quick 300 random programs "
             "(every other one with at least two pipelines), thorough 6000. non-trivial = at least two declarations "
             "received a binding (in at least one returned pipeline)",
     "trusted_base": [
         "Lean 4.33 kernel; axioms propext / Classical.choice / Quot.sound only (audited by #print axioms)",
         "tools/translate.py (SlotTables: ObjectType variants, slice_cost arm, is_buffer_address, get_register_type, "
         "AssignBindingsParams::default, compile()'s binding_params, 16 statement facts about process_definition) and "
-        "tools/gens/c06.py (SlotCompile: 32 statement facts about compile / build_pipeline / select_pipeline / the typer's "
-        "explicit group and DefaultBindGroup / both exporters' analyse_bindings, register_binding, inline block, Metal "
-        "group limit and sort) -- re-run on /repo's working tree every time; the facts are regular expressions over "
-        "the comment-stripped, whitespace-normalised source, reviewed by hand",
-        "hand-written Model/Slots.lean mirrors process_definition and Model/SlotsCompile.lean mirrors compile / "
-        "build_pipeline / select_pipeline / register_binding / generate_inline_constant_buffers / the Metal sort; "
+        "tools/gens/c06.py (SlotCompile: 40 statement facts about compile / build_pipeline / select_pipeline / the typer's "
+        "explicit group and DefaultBindGroup / typer/src/typer/globals.rs: the per-declarator binding state is created "
+        "inside the declarator loop (langSlotFreshPerDeclarator), nobody else assigns a language binding, the annotation "
+        "loop, the overrides after it, the whole attribute loop and parse_expr_as_u32 (exact text), the storage-class "
+        "loop, the cbuffer path / both exporters' analyse_bindings, register_binding, inline block, Metal "
+        "group limit and sort) -- re-run on /repo's working tree every time; the facts are regular expressions or exact "
+        "comparisons over the comment-stripped, whitespace-normalised source, reviewed by hand",
+        "hand-written Model/Slots.lean mirrors process_definition, Model/SlotsCompile.lean mirrors compile / "
+        "build_pipeline / select_pipeline / register_binding / generate_inline_constant_buffers / the Metal sort, "
+        "Model/SlotsFront.lean mirrors parse_attributes_for_global / parse_globaltype's storage loop / "
+        "parse_rootdefinition_globalvariable / parse_rootdefinition_constantbuffer as far as binding goes; "
         "tied to the code by the source facts and the two correspondence streams only",
         "Spec/Slots.lean: our reading of the property (which object kinds are resources, i.e. bindable; which kinds are "
         "doubled on Metal; 8 bytes per buffer address); "
         "Lemmas/SlotsCompile.requestedDefaults: which pipelines a call returns and that no-pipeline mode uses group 0; "
-        "Lemmas/SlotsMeta.entriesOf: what the metadata of a group must list",
-        "harness/src/c06/e2e.rs renders the request to source text; the request -> model-declaration mapping of "
-        "Driver/C06.lean (flags s, z, m make a global one the allocator leaves alone) is checked only by the run",
+        "Lemmas/SlotsMeta.entriesOf: what the metadata of a group must list; "
+        "Lemmas/SlotsFront.explicitGroup: what 'the explicit group of a declarator' means (last group attribute of its "
+        "declaration, else the space of its own last register annotation)",
+        "harness/src/c06/e2e.rs renders the request to source text (decl_attrs / own_anns / normalise); Driver/C06.lean "
+        "reads the same request into attributes, storage keywords and per-declarator annotations on its own "
+        "(declAttrs / ownAnns / groupEntries) and runs the front model on them; the two readings are checked against "
+        "each other only by the run",
     ],
     "assumptions": [
         "u32 arithmetic is modelled by Nat: statements apply while every group's running total stays below 2^32",
@@ -121,6 +160,11 @@ SPEC = {
         "the module handed to compile()'s loop is the one type_check returned: nothing selected, nothing assigned "
         "(hypotheses of per_pipeline_default_group; fresh_module_unbound shows the model's fresh module meets them)",
         "reported names are the source names (generated programs avoid names the exporters rename; renaming is C15)",
+        "attributes are modelled as the classes parse_attributes_for_global distinguishes (three well-formed shapes with "
+        "already evaluated u32 arguments, wrong argument count, unknown name, non-constant argument); evaluating the "
+        "argument expressions is the constant evaluator's business (C12/C13)",
+        "which of two explicit groups on one declarator wins (attribute vs register space, earlier vs later attribute) is "
+        "not fixed by the property: the oracle accepts either, the model and the source facts pin what the code does",
         "unsized arrays (excluded by the property), two-dimensional arrays and struct-typed globals holding resources "
         "(outside the property's quantifier) receive no slot: modelled as such, not judged by the oracle",
     ],
